@@ -97,6 +97,7 @@ pub fn inject_and_judge(t: &mut T2, app: &mut App, inj: &Inject, write_blocked: 
             for (_, ss) in app.send_streams.iter_mut() {
                 let _ = guarded(&mut panics, "send_data", || {
                     ss.reserve_capacity(10);
+                    let _ = ss.send_data(bytes::Bytes::new(), false);
                     let _ = ss.send_data(bytes::Bytes::from_static(b"hello"), false);
                     let _ = ss.capacity();
                 });
@@ -116,10 +117,12 @@ pub fn inject_and_judge(t: &mut T2, app: &mut App, inj: &Inject, write_blocked: 
             for (_, mut ss) in app.send_streams.drain(..) {
                 let _ = guarded(&mut panics, "send_reset", || ss.send_reset(h2::Reason::CANCEL));
             }
-            let _ = guarded(&mut panics, "drop handles", || {
-                app.resp_futs.clear();
-                app.bodies.clear();
-            });
+            for (_, rf) in app.resp_futs.drain(..) {
+                safe_drop(&mut panics, "ResponseFuture", rf);
+            }
+            for (_, b) in app.bodies.drain(..) {
+                safe_drop(&mut panics, "RecvStream", b);
+            }
         }
         t.panics.extend(panics);
         quiesced &= t.drive(300);
@@ -170,9 +173,11 @@ pub fn prepared(s: &StateSpec) -> (T2, App, View) {
     (t, app, v)
 }
 
-fn close(t: T2, app: App, key: &str, vios: &mut Vec<(String, String, String)>) {
-    drop(app);
+fn close(mut t: T2, app: App, key: &str, vios: &mut Vec<(String, String, String)>) {
     let already = t.panics.len();
+    let mut p = std::mem::take(&mut t.panics);
+    app.release(&mut p);
+    t.panics = p;
     let all = t.finish();
     for p in all.into_iter().skip(already) {
         vios.push(("C08.panic".into(), key.to_string(), format!("{}: panic during teardown: {}", key, p.lines().next().unwrap_or(""))));
@@ -269,7 +274,7 @@ pub fn run(ctx: &Ctx) -> Outcome {
         par_for(work.len(), |w| {
             let (si, blocked, activity) = work[w];
             let s = &sts[si];
-            if quick && (blocked || activity) && !["s-open", "s-response-open", "c-request-open", "c-response-open", "s-two-open", "c-promised"].contains(&s.name) {
+            if quick && (blocked || activity) && !["s-open", "s-response-open", "c-request-open", "c-response-open", "s-two-open", "c-promised", "c-send-window-negative", "s-recv-window-negative"].contains(&s.name) {
                 return;
             }
             let (t0, app0, v) = prepared(s);
